@@ -2,6 +2,9 @@
 """C20 - code points encode to standard UTF-8/16/32 and \\u escapes decode to them.
 
 (P) spec/QUnicode.tla: UTF8/UTF16/UTF32, escape forms, well-formedness + round trip of the specification itself
+(I) spec/QUnicodeImpl.tla + QUnicodeImplDefs.tla: Unicode::ToUTF (8/16/32-bit units) and the surrogate-pair combination of
+    JSONUtils::UnEscape with the code's bit operations; TLC: = (P) at every length boundary, in every plane and on a stride; five
+    seeded / plausible variants rejected; the oracle reports drift of the transcription on every recorded code point.
 (B) code -> spec (E5): Unicode::ToUTF<char|char16_t|char32_t> and JSON::Parse of ["\\uXXXX"] (upper hex, lower hex,
     inside a longer string; surrogate pairs above U+FFFF; exact-size buffers under ASan) are recorded for every scalar
     value (thorough) / a boundary-dense subset (quick) and each event is evaluated by TLC against QUnicode.
@@ -18,7 +21,15 @@ EDGES = [0x7F, 0x80, 0x7FF, 0x800, 0xFFF, 0x1000, 0xD7FF, 0xE000, 0xFFFD, 0xFFFE
 def main():
     c = vf.Check("C20")
     (asan,) = c.build("h_unicode.asan")
+    # (I) the encoders and the surrogate combination transcribed with the code's bit operations, against (P); seeded / plausible variants rejected
+    r = c.tlc("QUnicodeImpl", "QUnicodeImpl_current", timeout=600, workers=4)
+    c.expect_holds(r, "QUnicodeImpl: ToUTF (8/16/32) and the surrogate combination agree with QUnicode at every boundary and plane")
+    for v in ("plane16-guard", "surrogate-guard", "pair-or", "lead-mask", "bmp-inclusive"):
+        r = c.tlc("QUnicodeImpl", "QUnicodeImpl_" + v, timeout=600, workers=2)
+        if not r.violated:
+            raise vf.MachineryError("QUnicodeImpl_%s: the seeded / mutated encoder is not rejected" % v)
     chunks = []
+    drift_total = 0
     if c.thorough:
         step = 139008  # 1,114,112 / 8 rounded: eight contiguous chunks cover every scalar value
         lo = 0
@@ -46,6 +57,10 @@ def main():
             continue
         r = c.tlc("OracleUnicode", env={"TRACE": p}, name="OracleUnicode_%d" % i, timeout=3000, xmx="24g")
         bad = sorted(set(t[1] for t in r.tuples("MISMATCH")))
+        drift = sorted(set(t[1] for t in r.tuples("DRIFT")))
+        if drift and not bad:      # the engine is right by (P) but differs from the transcription: the transcription is out of date
+            c.drift.append({"oracle": "OracleUnicode", "lines": drift[:5]})
+        drift_total += len(drift)
         n = r.distinct
         total += n
         if bad:
@@ -65,6 +80,7 @@ def main():
                 c.sample(e)
         os.remove(p)
     c._distinct = set(range(total))   # every event is a different code point
+    c.stage("transcription", drift_lines=drift_total)
     r = c.tlc("QUnicodeSelf", "QUnicode_self", timeout=600)
     c.expect_holds(r, "QUnicode round trip / well-formedness")
     c.finish(rule="one event per Unicode scalar value (thorough: all 1,112,064; quick: all below U+1000, +-2 around %d plane/length edges, "
